@@ -559,6 +559,9 @@ def drillhole_program_strategy(max_adds=6):
                 ops.append({"op": "reopen"})
             elif extra == 1:
                 ops.append({"op": "query"})
+            elif extra in (2, 3) and n + 1 < n_adds:
+                # this log and the next one are handed to ONE add_data call (a dictionary of several data sets)
+                ops[-1]["batch_with_next"] = True
         if draw(st.integers(0, 2)) == 0:
             ops.append({"op": "reopen"})
         queries = draw(st.lists(st.floats(0.0, 400.0, allow_nan=False).map(lambda v: round(v, 4)), max_size=4))
